@@ -126,6 +126,11 @@ namespace ip {
 
 		if (m_queue.empty()) return;
 
+		// this completion may have been posted before cancel() emptied the queue.
+		// The entry at the front is then a later lookup, whose own wait is
+		// still pending
+		if (m_queue.front().completion_time > chrono::high_resolution_clock::now()) return;
+
 		typename queue_t::value_type v = std::move(m_queue.front());
 		m_queue.erase(m_queue.begin());
 
